@@ -13,28 +13,30 @@ theorem compileCond_length (c : BExpr) (base t f : Nat) : (compileCond c base t 
   | lor a b iha ihb => simp [compileCond, BExpr.size, iha, ihb]
 
 mutual
-theorem compile_length (ent : Nat → Nat) : (s : Stmt) → ∀ (base next brk cont : Nat),
-    (compile ent s base next brk cont).length = s.size
-  | .skip, _, _, _, _ => rfl
-  | .seq a b, base, next, brk, cont => by
-    simp [compile, Stmt.size, compile_length ent a, compile_length ent b]
-  | .assign _ _, _, _, _, _ => rfl
-  | .print _, _, _, _, _ => rfl
-  | .ite c t e, base, next, brk, cont => by
-    simp [compile, Stmt.size, compileCond_length, compile_length ent t, compile_length ent e]; omega
-  | .loop c body post, base, next, brk, cont => by
-    simp [compile, Stmt.size, compileCond_length, compile_length ent body, compile_length ent post]; omega
-  | .brk, _, _, _, _ => rfl
-  | .cont, _, _, _, _ => rfl
-  | .switch cs, base, next, brk, cont => by
-    simp [compile, Stmt.size, compileClauses_length ent cs]
-  | .ret _, _, _, _, _ => rfl
-  | .call _ _ _, _, _, _, _ => rfl
-theorem compileClauses_length (ent : Nat → Nat) : (cs : Clauses) → ∀ (base next cont : Nat),
-    (compileClauses ent cs base next cont).length = cs.size
-  | .nil, _, _, _ => rfl
-  | .cons c body fall rest, base, next, cont => by
-    simp [compileClauses, Clauses.size, compileCond_length, compile_length ent body, compileClauses_length ent rest]; omega
+theorem compile_length (ent : Nat → Nat) (fin : Nat) : (s : Stmt) → ∀ (ls : List (Nat × Nat)) (base next brk cont : Nat),
+    (compile ent fin ls s base next brk cont).length = s.size
+  | .skip, _, _, _, _, _ => rfl
+  | .seq a b, ls, base, next, brk, cont => by
+    simp [compile, Stmt.size, compile_length ent fin a, compile_length ent fin b]
+  | .assign _ _, _, _, _, _, _ => rfl
+  | .print _, _, _, _, _, _ => rfl
+  | .ite c t e, ls, base, next, brk, cont => by
+    simp [compile, Stmt.size, compileCond_length, compile_length ent fin t, compile_length ent fin e]; omega
+  | .loop c body post, ls, base, next, brk, cont => by
+    simp [compile, Stmt.size, compileCond_length, compile_length ent fin body, compile_length ent fin post]; omega
+  | .brk, _, _, _, _, _ => rfl
+  | .cont, _, _, _, _, _ => rfl
+  | .switch cs, ls, base, next, brk, cont => by
+    simp [compile, Stmt.size, compileClauses_length ent fin cs]
+  | .ret _, _, _, _, _, _ => rfl
+  | .call _ _ _, _, _, _, _, _ => rfl
+  | .brkL _, _, _, _, _, _ => rfl
+  | .contL _, _, _, _, _, _ => rfl
+theorem compileClauses_length (ent : Nat → Nat) (fin : Nat) : (cs : Clauses) → ∀ (ls : List (Nat × Nat)) (base next cont : Nat),
+    (compileClauses ent fin ls cs base next cont).length = cs.size
+  | .nil, _, _, _, _ => rfl
+  | .cons c body fall rest, ls, base, next, cont => by
+    simp [compileClauses, Clauses.size, compileCond_length, compile_length ent fin body, compileClauses_length ent fin rest]; omega
 end
 
 theorem steps_add (code : List Instr) (m n : Nat) (st : MState) :
@@ -200,12 +202,14 @@ def Clauses.wf : Clauses → Bool
 end
 
 /-- where the machine is after a statement that ended with signal `sig` -/
-def target (next brk cont : Nat) (σ : List Frame) : Sig → St → MState
+def target (next brk cont fin : Nat) (ls : List (Nat × Nat)) (σ : List Frame) : Sig → St → MState
   | .normal, s => .run next s σ
   | .brk, s => .run brk s σ
   | .cont, s => .run cont s σ
   | .panic, s => .panicked s
   | .ret v, s => doReturn v s σ
+  | .brkL n, s => .run (labelBrk ls n fin) s σ
+  | .contL n, s => .run (labelCont ls n fin) s σ
 
 theorem simple_sig {fs : Funs} {f : Nat} {p : Stmt} {s s' : St} {sig : Sig} (hs : p.simple = true)
     (h : exec fs f p s = some (sig, s')) : sig = .normal ∨ sig = .panic := by
@@ -221,57 +225,57 @@ theorem simple_sig {fs : Funs} {f : Nat} {p : Stmt} {s s' : St} {sig : Sig} (hs 
 
 /-- simulation statement for statements, at a given amount of fuel -/
 def SimStmt (code : List Instr) (fs : Funs) (ent : Nat → Nat) (fuel : Nat) : Prop :=
-  ∀ (p : Stmt) (s s' : St) (sig : Sig) (base next brk cont : Nat) (σ : List Frame),
+  ∀ (p : Stmt) (s s' : St) (sig : Sig) (base next brk cont fin : Nat) (ls : List (Nat × Nat)) (σ : List Frame),
     p.wf = true →
     exec fs fuel p s = some (sig, s') →
-    Embeds code (compile ent p base next brk cont) base →
-    ∃ n, steps code n (.run base s σ) = some (target next brk cont σ sig s')
+    Embeds code (compile ent fin ls p base next brk cont) base →
+    ∃ n, steps code n (.run base s σ) = some (target next brk cont fin ls σ sig s')
 
 /-- … for the clause list of a switch entered at its first test (`break` leaves the switch) -/
 def SimClauses (code : List Instr) (fs : Funs) (ent : Nat → Nat) (fuel : Nat) : Prop :=
-  ∀ (cs : Clauses) (s s' : St) (sig : Sig) (base next cont : Nat) (σ : List Frame),
+  ∀ (cs : Clauses) (s s' : St) (sig : Sig) (base next cont fin : Nat) (ls : List (Nat × Nat)) (σ : List Frame),
     cs.wf = true →
     execClauses fs fuel cs s = some (sig, s') →
-    Embeds code (compileClauses ent cs base next cont) base →
-    ∃ n, steps code n (.run base s σ) = some (target next next cont σ sig s')
+    Embeds code (compileClauses ent fin ls cs base next cont) base →
+    ∃ n, steps code n (.run base s σ) = some (target next next cont fin ls σ sig s')
 
 /-- … and entered at the body of its first clause (after a `fallthrough`) -/
 def SimFall (code : List Instr) (fs : Funs) (ent : Nat → Nat) (fuel : Nat) : Prop :=
-  ∀ (cs : Clauses) (s s' : St) (sig : Sig) (base next cont : Nat) (σ : List Frame),
+  ∀ (cs : Clauses) (s s' : St) (sig : Sig) (base next cont fin : Nat) (ls : List (Nat × Nat)) (σ : List Frame),
     cs.wf = true →
     execFall fs fuel cs s = some (sig, s') →
-    Embeds code (compileClauses ent cs base next cont) base →
-    ∃ n, steps code n (.run (cs.bodyStart base) s σ) = some (target next next cont σ sig s')
+    Embeds code (compileClauses ent fin ls cs base next cont) base →
+    ∃ n, steps code n (.run (cs.bodyStart base) s σ) = some (target next next cont fin ls σ sig s')
 
 /-- the body of a selected clause, then either the exit of the switch or the next body -/
 theorem clause_body (code : List Instr) (fs : Funs) (ent : Nat → Nat) (f : Nat)
     (hS : SimStmt code fs ent f) (hF : SimFall code fs ent f)
-    (c : BExpr) (body : Stmt) (fall : Bool) (rest : Clauses) (s s' : St) (sig : Sig) (base next cont : Nat)
-    (σ : List Frame)
+    (c : BExpr) (body : Stmt) (fall : Bool) (rest : Clauses) (s s' : St) (sig : Sig) (base next cont fin : Nat)
+    (ls : List (Nat × Nat)) (σ : List Frame)
     (hwb : body.wf = true) (hwr : rest.wf = true)
-    (hemb : Embeds code (compileClauses ent (.cons c body fall rest) base next cont) base)
+    (hemb : Embeds code (compileClauses ent fin ls (.cons c body fall rest) base next cont) base)
     (h : (match exec fs f body s with
           | some (.normal, s1) => if fall then execFall fs f rest s1 else some (.normal, s1)
           | r => r) = some (sig, s')) :
-    ∃ n, steps code n (.run (base + c.size) s σ) = some (target next next cont σ sig s') := by
+    ∃ n, steps code n (.run (base + c.size) s σ) = some (target next next cont fin ls σ sig s') := by
   simp only [compileClauses] at hemb
   have hbody := hemb.left.right
   have hrest := hemb.right
   rw [compileCond_length] at hbody
-  rw [List.length_append, compileCond_length, compile_length ent, ← Nat.add_assoc] at hrest
+  rw [List.length_append, compileCond_length, compile_length ent fin, ← Nat.add_assoc] at hrest
   cases hx : exec fs f body s with
   | none => simp [hx] at h
   | some r =>
     obtain ⟨sg, s1⟩ := r
     obtain ⟨n1, hn1⟩ := hS body s s1 sg (base + c.size)
-      (if fall then rest.bodyStart (base + c.size + body.size) else next) next cont σ hwb hx hbody
+      (if fall then rest.bodyStart (base + c.size + body.size) else next) next cont fin ls σ hwb hx hbody
     cases sg with
     | normal =>
       simp only [hx] at h
       cases fall with
       | true =>
         simp only [if_true] at h hn1
-        obtain ⟨n2, hn2⟩ := hF rest s1 s' sig (base + c.size + body.size) next cont σ hwr h hrest
+        obtain ⟨n2, hn2⟩ := hF rest s1 s' sig (base + c.size + body.size) next cont fin ls σ hwr h hrest
         exact ⟨n1 + n2, steps_trans (by simpa [target] using hn1) hn2⟩
       | false =>
         simp only [Bool.false_eq_true, if_false, Option.some.injEq, Prod.mk.injEq] at h hn1
@@ -293,6 +297,14 @@ theorem clause_body (code : List Instr) (fs : Funs) (ent : Nat → Nat) (f : Nat
       simp only [hx, Option.some.injEq, Prod.mk.injEq] at h
       obtain ⟨rfl, rfl⟩ := h
       exact ⟨n1, by simpa [target] using hn1⟩
+    | brkL k =>
+      simp only [hx, Option.some.injEq, Prod.mk.injEq] at h
+      obtain ⟨rfl, rfl⟩ := h
+      exact ⟨n1, by simpa [target] using hn1⟩
+    | contL k =>
+      simp only [hx, Option.some.injEq, Prod.mk.injEq] at h
+      obtain ⟨rfl, rfl⟩ := h
+      exact ⟨n1, by simpa [target] using hn1⟩
 
 theorem callResult_none (s : St) (x : Nat) : callResult s x none = none := rfl
 theorem callResult_ret (s s1 : St) (x : Nat) (v : Val) :
@@ -304,6 +316,11 @@ theorem callResult_brk (s s1 : St) (x : Nat) :
     callResult s x (some (.brk, s1)) = some (.normal, { vars := (s.set x 0).vars, out := s1.out }) := rfl
 theorem callResult_cont (s s1 : St) (x : Nat) :
     callResult s x (some (.cont, s1)) = some (.normal, { vars := (s.set x 0).vars, out := s1.out }) := rfl
+
+theorem callResult_brkL (s s1 : St) (x k : Nat) :
+    callResult s x (some (.brkL k, s1)) = some (.normal, { vars := (s.set x 0).vars, out := s1.out }) := rfl
+theorem callResult_contL (s s1 : St) (x k : Nat) :
+    callResult s x (some (.contL k, s1)) = some (.normal, { vars := (s.set x 0).vars, out := s1.out }) := rfl
 
 /-- every declared function's graph (body followed by `return 0`) sits in `code` at its entry -/
 def FunsEmbed (code : List Instr) (fs : Funs) (ent : Nat → Nat) : Prop :=
@@ -319,15 +336,15 @@ theorem sim_all (code : List Instr) (fs : Funs) (ent : Nat → Nat) (hfe : FunsE
   induction fuel with
   | zero =>
     refine ⟨?_, ?_, ?_⟩
-    · intro p s s' sig base next brk cont σ _ h; simp [exec] at h
-    · intro cs s s' sig base next cont σ _ h; simp [execClauses] at h
-    · intro cs s s' sig base next cont σ _ h; simp [execFall] at h
+    · intro p s s' sig base next brk cont fin ls σ _ h; simp [exec] at h
+    · intro cs s s' sig base next cont fin ls σ _ h; simp [execClauses] at h
+    · intro cs s s' sig base next cont fin ls σ _ h; simp [execFall] at h
   | succ f ihall =>
     obtain ⟨ih, ihC, ihF⟩ := ihall
     refine ⟨?_, ?_, ?_⟩
     rotate_left
     · -- clauses entered at the first test
-      intro cs s s' sig base next cont σ hwf h hemb
+      intro cs s s' sig base next cont fin ls σ hwf h hemb
       cases cs with
       | nil =>
         simp only [execClauses, Option.some.injEq, Prod.mk.injEq] at h
@@ -340,7 +357,7 @@ theorem sim_all (code : List Instr) (fs : Funs) (ent : Nat → Nat) (hfe : FunsE
         simp only [compileClauses] at hemb
         have hcnd := hemb.left.left
         have hrest := hemb.right
-        rw [List.length_append, compileCond_length, compile_length ent, ← Nat.add_assoc] at hrest
+        rw [List.length_append, compileCond_length, compile_length ent fin, ← Nat.add_assoc] at hrest
         obtain ⟨c1, c2⟩ := cond_sim code s σ c base (base + c.size) (base + c.size + body.size) hcnd
         simp only [execClauses] at h
         cases hc : c.eval s with
@@ -353,14 +370,14 @@ theorem sim_all (code : List Instr) (fs : Funs) (ent : Nat → Nat) (hfe : FunsE
           cases v with
           | false =>
             simp only [hc] at h
-            obtain ⟨n2, hn2⟩ := ihC rest s s' sig (base + c.size + body.size) next cont σ hwf.2 h hrest
+            obtain ⟨n2, hn2⟩ := ihC rest s s' sig (base + c.size + body.size) next cont fin ls σ hwf.2 h hrest
             exact ⟨n1 + n2, steps_trans (by simpa using hn1) hn2⟩
           | true =>
             simp only [hc] at h
-            obtain ⟨n2, hn2⟩ := clause_body code fs ent f ih ihF c body fall rest s s' sig base next cont σ hwf.1 hwf.2 hemb0 h
+            obtain ⟨n2, hn2⟩ := clause_body code fs ent f ih ihF c body fall rest s s' sig base next cont fin ls σ hwf.1 hwf.2 hemb0 h
             exact ⟨n1 + n2, steps_trans (by simpa using hn1) hn2⟩
     · -- clauses entered at the first body (fallthrough)
-      intro cs s s' sig base next cont σ hwf h hemb
+      intro cs s s' sig base next cont fin ls σ hwf h hemb
       cases cs with
       | nil =>
         simp only [execFall, Option.some.injEq, Prod.mk.injEq] at h
@@ -371,9 +388,9 @@ theorem sim_all (code : List Instr) (fs : Funs) (ent : Nat → Nat) (hfe : FunsE
         simp only [Clauses.wf, Bool.and_eq_true] at hwf
         simp only [execFall] at h
         simpa [Clauses.bodyStart] using
-          clause_body code fs ent f ih ihF c body fall rest s s' sig base next cont σ hwf.1 hwf.2 hemb h
+          clause_body code fs ent f ih ihF c body fall rest s s' sig base next cont fin ls σ hwf.1 hwf.2 hemb h
     -- statements
-    intro p s s' sig base next brk cont σ hwf h hemb
+    intro p s s' sig base next brk cont fin ls σ hwf h hemb
     cases p with
     | skip =>
       simp only [exec, Option.some.injEq, Prod.mk.injEq] at h
@@ -386,6 +403,16 @@ theorem sim_all (code : List Instr) (fs : Funs) (ent : Nat → Nat) (hfe : FunsE
       have hc := Embeds.head (by simpa [compile] using hemb)
       exact ⟨1, by simp [steps, step, hc, target]⟩
     | cont =>
+      simp only [exec, Option.some.injEq, Prod.mk.injEq] at h
+      obtain ⟨rfl, rfl⟩ := h
+      have hc := Embeds.head (by simpa [compile] using hemb)
+      exact ⟨1, by simp [steps, step, hc, target]⟩
+    | brkL k =>
+      simp only [exec, Option.some.injEq, Prod.mk.injEq] at h
+      obtain ⟨rfl, rfl⟩ := h
+      have hc := Embeds.head (by simpa [compile] using hemb)
+      exact ⟨1, by simp [steps, step, hc, target]⟩
+    | contL k =>
       simp only [exec, Option.some.injEq, Prod.mk.injEq] at h
       obtain ⟨rfl, rfl⟩ := h
       have hc := Embeds.head (by simpa [compile] using hemb)
@@ -419,17 +446,17 @@ theorem sim_all (code : List Instr) (fs : Funs) (ent : Nat → Nat) (hfe : FunsE
       simp only [compile] at hemb
       have ha := hemb.left
       have hb := hemb.right
-      rw [compile_length ent] at hb
+      rw [compile_length ent fin] at hb
       simp only [exec] at h
       cases hx : exec fs f a s with
       | none => simp [hx] at h
       | some r =>
         obtain ⟨sg, s1⟩ := r
-        obtain ⟨n1, hn1⟩ := ih a s s1 sg base (base + a.size) brk cont σ hwf.1 hx ha
+        obtain ⟨n1, hn1⟩ := ih a s s1 sg base (base + a.size) brk cont fin ls σ hwf.1 hx ha
         cases sg with
         | normal =>
           simp only [hx] at h
-          obtain ⟨n2, hn2⟩ := ih b s1 s' sig (base + a.size) next brk cont σ hwf.2 h hb
+          obtain ⟨n2, hn2⟩ := ih b s1 s' sig (base + a.size) next brk cont fin ls σ hwf.2 h hb
           exact ⟨n1 + n2, steps_trans hn1 hn2⟩
         | brk =>
           simp only [hx, Option.some.injEq, Prod.mk.injEq] at h
@@ -447,6 +474,14 @@ theorem sim_all (code : List Instr) (fs : Funs) (ent : Nat → Nat) (hfe : FunsE
           simp only [hx, Option.some.injEq, Prod.mk.injEq] at h
           obtain ⟨rfl, rfl⟩ := h
           exact ⟨n1, hn1⟩
+        | brkL k =>
+          simp only [hx, Option.some.injEq, Prod.mk.injEq] at h
+          obtain ⟨rfl, rfl⟩ := h
+          exact ⟨n1, hn1⟩
+        | contL k =>
+          simp only [hx, Option.some.injEq, Prod.mk.injEq] at h
+          obtain ⟨rfl, rfl⟩ := h
+          exact ⟨n1, hn1⟩
     | ite c t e =>
       simp only [Stmt.wf, Bool.and_eq_true] at hwf
       simp only [compile] at hemb
@@ -454,7 +489,7 @@ theorem sim_all (code : List Instr) (fs : Funs) (ent : Nat → Nat) (hfe : FunsE
       have ht := hemb.left.right
       have he := hemb.right
       rw [compileCond_length] at ht
-      rw [List.length_append, compileCond_length, compile_length ent, ← Nat.add_assoc] at he
+      rw [List.length_append, compileCond_length, compile_length ent fin, ← Nat.add_assoc] at he
       obtain ⟨c1, c2⟩ := cond_sim code s σ c base (base + c.size) (base + c.size + t.size) hcnd
       simp only [exec] at h
       cases hc : c.eval s with
@@ -467,11 +502,11 @@ theorem sim_all (code : List Instr) (fs : Funs) (ent : Nat → Nat) (hfe : FunsE
         cases v with
         | true =>
           simp only [hc] at h
-          obtain ⟨n2, hn2⟩ := ih t s s' sig (base + c.size) next brk cont σ hwf.1 h ht
+          obtain ⟨n2, hn2⟩ := ih t s s' sig (base + c.size) next brk cont fin ls σ hwf.1 h ht
           exact ⟨n1 + n2, steps_trans (by simpa using hn1) hn2⟩
         | false =>
           simp only [hc] at h
-          obtain ⟨n2, hn2⟩ := ih e s s' sig (base + c.size + t.size) next brk cont σ hwf.2 h he
+          obtain ⟨n2, hn2⟩ := ih e s s' sig (base + c.size + t.size) next brk cont fin ls σ hwf.2 h he
           exact ⟨n1 + n2, steps_trans (by simpa using hn1) hn2⟩
     | loop c body post =>
       have hwf0 := hwf
@@ -483,7 +518,7 @@ theorem sim_all (code : List Instr) (fs : Funs) (ent : Nat → Nat) (hfe : FunsE
       have hbody := hemb.left.right
       have hpost := hemb.right
       rw [compileCond_length] at hbody
-      rw [List.length_append, compileCond_length, compile_length ent, ← Nat.add_assoc] at hpost
+      rw [List.length_append, compileCond_length, compile_length ent fin, ← Nat.add_assoc] at hpost
       obtain ⟨c1, c2⟩ := cond_sim code s σ c base (base + c.size) next hcnd
       simp only [exec] at h
       cases hc : c.eval s with
@@ -501,57 +536,78 @@ theorem sim_all (code : List Instr) (fs : Funs) (ent : Nat → Nat) (hfe : FunsE
         | true =>
           simp only [hc] at h
           cases hx : exec fs f body s with
-          | none => simp [hx] at h
+          | none => rw [hx] at h; simp [loopStep] at h
           | some r =>
             obtain ⟨sg, s1⟩ := r
+            rw [hx] at h
             obtain ⟨n2, hn2⟩ := ih body s s1 sg (base + c.size) (base + c.size + body.size) next
-              (base + c.size + body.size) σ hwb hx hbody
+              (base + c.size + body.size) fin ((next, base + c.size + body.size) :: ls) σ hwb hx hbody
             have hreach : steps code (n1 + n2) (.run base s σ) =
-                some (target (base + c.size + body.size) next (base + c.size + body.size) σ sg s1) :=
+                some (target (base + c.size + body.size) next (base + c.size + body.size) fin
+                  ((next, base + c.size + body.size) :: ls) σ sg s1) :=
               steps_trans (by simpa using hn1) hn2
-            -- after a normal end or a `continue` the machine is at the post statement
-            have post_case : (sg = .normal ∨ sg = .cont) →
+            -- after a normal end, a `continue` or a `continue L` naming this loop the machine is at the post statement
+            have post_case : (sg = .normal ∨ sg = .cont ∨ sg = .contL 0) →
                 (match exec fs f post s1 with
                   | some (.normal, s2) => exec fs f (.loop c body post) s2
                   | some (.panic, s2) => some (.panic, s2)
                   | some (_, s2) => some (.panic, s2)
                   | none => none) = some (sig, s') →
-                ∃ n, steps code n (.run base s σ) = some (target next brk cont σ sig s') := by
+                ∃ n, steps code n (.run base s σ) = some (target next brk cont fin ls σ sig s') := by
               intro hsg hh
               have hat : steps code (n1 + n2) (.run base s σ) = some (.run (base + c.size + body.size) s1 σ) := by
-                rcases hsg with rfl | rfl <;> simpa [target] using hreach
+                rcases hsg with rfl | rfl | rfl <;> simpa [target, labelCont] using hreach
               cases hp : exec fs f post s1 with
               | none => simp [hp] at hh
               | some r2 =>
                 obtain ⟨sg2, s2⟩ := r2
                 obtain ⟨n3, hn3⟩ := ih post s1 s2 sg2 (base + c.size + body.size) base next
-                  (base + c.size + body.size) σ hwp hp hpost
+                  (base + c.size + body.size) fin ls σ hwp hp hpost
                 rcases simple_sig hsimple hp with rfl | rfl
                 · simp only [hp] at hh
-                  obtain ⟨n4, hn4⟩ := ih (.loop c body post) s2 s' sig base next brk cont σ hwf0 hh hemb0
+                  obtain ⟨n4, hn4⟩ := ih (.loop c body post) s2 s' sig base next brk cont fin ls σ hwf0 hh hemb0
                   exact ⟨n1 + n2 + n3 + n4, steps_trans (steps_trans hat (by simpa [target] using hn3)) hn4⟩
                 · simp only [hp, Option.some.injEq, Prod.mk.injEq] at hh
                   obtain ⟨rfl, rfl⟩ := hh
                   exact ⟨n1 + n2 + n3, steps_trans hat (by simpa [target] using hn3)⟩
             cases sg with
             | brk =>
-              simp only [hx, Option.some.injEq, Prod.mk.injEq] at h
+              simp only [loopStep, Option.some.injEq, Prod.mk.injEq] at h
               obtain ⟨rfl, rfl⟩ := h
               exact ⟨n1 + n2, by simpa [target] using hreach⟩
             | panic =>
-              simp only [hx, Option.some.injEq, Prod.mk.injEq] at h
+              simp only [loopStep, Option.some.injEq, Prod.mk.injEq] at h
               obtain ⟨rfl, rfl⟩ := h
               exact ⟨n1 + n2, by simpa [target] using hreach⟩
             | ret v =>
-              simp only [hx, Option.some.injEq, Prod.mk.injEq] at h
+              simp only [loopStep, Option.some.injEq, Prod.mk.injEq] at h
               obtain ⟨rfl, rfl⟩ := h
               exact ⟨n1 + n2, by simpa [target] using hreach⟩
             | normal =>
-              simp only [hx] at h
+              simp only [loopStep] at h
               exact post_case (Or.inl rfl) h
             | cont =>
-              simp only [hx] at h
-              exact post_case (Or.inr rfl) h
+              simp only [loopStep] at h
+              exact post_case (Or.inr (Or.inl rfl)) h
+            | brkL k =>
+              cases k with
+              | zero =>
+                simp only [loopStep, Option.some.injEq, Prod.mk.injEq] at h
+                obtain ⟨rfl, rfl⟩ := h
+                exact ⟨n1 + n2, by simpa [target, labelBrk] using hreach⟩
+              | succ k =>
+                simp only [loopStep, Option.some.injEq, Prod.mk.injEq] at h
+                obtain ⟨rfl, rfl⟩ := h
+                exact ⟨n1 + n2, by simpa [target, labelBrk] using hreach⟩
+            | contL k =>
+              cases k with
+              | zero =>
+                simp only [loopStep] at h
+                exact post_case (Or.inr (Or.inr rfl)) h
+              | succ k =>
+                simp only [loopStep, Option.some.injEq, Prod.mk.injEq] at h
+                obtain ⟨rfl, rfl⟩ := h
+                exact ⟨n1 + n2, by simpa [target, labelCont] using hreach⟩
     | switch cs =>
       simp only [Stmt.wf] at hwf
       simp only [compile] at hemb
@@ -560,7 +616,7 @@ theorem sim_all (code : List Instr) (fs : Funs) (ent : Nat → Nat) (hfe : FunsE
       | none => simp [hx] at h
       | some r =>
         obtain ⟨sg, s1⟩ := r
-        obtain ⟨n1, hn1⟩ := ihC cs s s1 sg base next cont σ hwf hx hemb
+        obtain ⟨n1, hn1⟩ := ihC cs s s1 sg base next cont fin ls σ hwf hx hemb
         cases sg with
         | brk =>
           simp only [hx, Option.some.injEq, Prod.mk.injEq] at h
@@ -579,6 +635,14 @@ theorem sim_all (code : List Instr) (fs : Funs) (ent : Nat → Nat) (hfe : FunsE
           obtain ⟨rfl, rfl⟩ := h
           exact ⟨n1, by simpa [target] using hn1⟩
         | ret v =>
+          simp only [hx, Option.some.injEq, Prod.mk.injEq] at h
+          obtain ⟨rfl, rfl⟩ := h
+          exact ⟨n1, by simpa [target] using hn1⟩
+        | brkL k =>
+          simp only [hx, Option.some.injEq, Prod.mk.injEq] at h
+          obtain ⟨rfl, rfl⟩ := h
+          exact ⟨n1, by simpa [target] using hn1⟩
+        | contL k =>
           simp only [hx, Option.some.injEq, Prod.mk.injEq] at h
           obtain ⟨rfl, rfl⟩ := h
           exact ⟨n1, by simpa [target] using hn1⟩
@@ -612,7 +676,7 @@ theorem sim_all (code : List Instr) (fs : Funs) (ent : Nat → Nat) (hfe : FunsE
           unfold compileFn at hembF
           have hb := hembF.left
           have hret := Embeds.head hembF.right
-          rw [compile_length ent] at hret
+          rw [compile_length ent (ent g + body.size)] at hret
           have h0 : steps code 1 (.run base s σ) =
               some (.run (ent g) (calleeSt s vals) (⟨next, s.vars, x⟩ :: σ)) := by
             simp [steps, step, hc, ha]
@@ -621,9 +685,9 @@ theorem sim_all (code : List Instr) (fs : Funs) (ent : Nat → Nat) (hfe : FunsE
           | some r =>
             obtain ⟨sg, s1⟩ := r
             obtain ⟨n1, hn1⟩ := ih body (calleeSt s vals) s1 sg (ent g) (ent g + body.size) (ent g + body.size)
-              (ent g + body.size) (⟨next, s.vars, x⟩ :: σ) (hfw g body hl) hx hb
+              (ent g + body.size) (ent g + body.size) [] (⟨next, s.vars, x⟩ :: σ) (hfw g body hl) hx hb
             -- a body that falls off its end reaches the trailing `return 0`
-            have fell : target (ent g + body.size) (ent g + body.size) (ent g + body.size)
+            have fell : target (ent g + body.size) (ent g + body.size) (ent g + body.size) (ent g + body.size) []
                   (⟨next, s.vars, x⟩ :: σ) sg s1 = .run (ent g + body.size) s1 (⟨next, s.vars, x⟩ :: σ) →
                 steps code (1 + n1 + 1) (.run base s σ) =
                   some (.run next { vars := (s.set x 0).vars, out := s1.out } σ) := by
@@ -657,14 +721,24 @@ theorem sim_all (code : List Instr) (fs : Funs) (ent : Nat → Nat) (hfe : FunsE
               simp only [Option.some.injEq, Prod.mk.injEq] at h
               obtain ⟨rfl, rfl⟩ := h
               exact ⟨1 + n1 + 1, by simpa [target] using fell rfl⟩
+            | brkL k =>
+              rw [hx, callResult_brkL] at h
+              simp only [Option.some.injEq, Prod.mk.injEq] at h
+              obtain ⟨rfl, rfl⟩ := h
+              exact ⟨1 + n1 + 1, by simpa [target] using fell (by simp [target, labelBrk])⟩
+            | contL k =>
+              rw [hx, callResult_contL] at h
+              simp only [Option.some.injEq, Prod.mk.injEq] at h
+              obtain ⟨rfl, rfl⟩ := h
+              exact ⟨1 + n1 + 1, by simpa [target] using fell (by simp [target, labelCont])⟩
 
 /-- statements (the form used by the property theorems) -/
 theorem sim (code : List Instr) (fs : Funs) (ent : Nat → Nat) (hfe : FunsEmbed code fs ent) (hfw : Funs.wf fs)
-    (fuel : Nat) (p : Stmt) (s s' : St) (sig : Sig) (base next brk cont : Nat) (σ : List Frame)
-    (hwf : p.wf = true) (h : exec fs fuel p s = some (sig, s'))
-    (hemb : Embeds code (compile ent p base next brk cont) base) :
-    ∃ n, steps code n (.run base s σ) = some (target next brk cont σ sig s') :=
-  (sim_all code fs ent hfe hfw fuel).1 p s s' sig base next brk cont σ hwf h hemb
+    (fuel : Nat) (p : Stmt) (s s' : St) (sig : Sig) (base next brk cont fin : Nat) (ls : List (Nat × Nat))
+    (σ : List Frame) (hwf : p.wf = true) (h : exec fs fuel p s = some (sig, s'))
+    (hemb : Embeds code (compile ent fin ls p base next brk cont) base) :
+    ∃ n, steps code n (.run base s σ) = some (target next brk cont fin ls σ sig s') :=
+  (sim_all code fs ent hfe hfw fuel).1 p s s' sig base next brk cont fin ls σ hwf h hemb
 
 theorem compileFn_length (ent : Nat → Nat) (b : Stmt) (base : Nat) :
     (compileFn ent b base).length = b.size + 1 := by
